@@ -70,6 +70,7 @@ LET = {
     "r": (lambda: ops.Rgate(0.6), 1),
     "s2": (lambda: ops.S2gate(0.08, 0.5), 2),
     "i3": (lambda: ops.Interferometer(U3), 3),
+    "Ksub": (lambda: ops.Rgate(0.9), 1),
 }
 ALPH = {
     "gaussian_unitary": ["D", "D.H", "S", "S.H", "R", "R.H", "BS", "BS.H", "MZ", "MZ.H", "sMZ", "S2", "S2.H", "I1", "I2", "I3", "GT1", "GT2", "GT3", "X", "CX"],
@@ -276,9 +277,68 @@ def check_hybrid(n, seq, res):
     return len(out.circuit) != len(prog.circuit)
 
 
+ORDER3 = [("r", (0,)), ("r", (1,)), ("r", (2,)), ("bs", (0, 1)), ("bs", (1, 2)), ("bs", (0, 2)), ("K", (0,)), ("K", (1,)), ("K", (2,))]
+
+
+ORDER3_QUICK = [l for l in ORDER3 if l[0] != "r" or l[1] == (0,)]  # one rotation only: 7 letters
+
+
+def check_order(n, seq, res):
+    """gaussian_merge on longer three-mode circuits with Kerr gates, judged without a simulator: the compile returns (or refuses
+    with a circuit error), the Kerr gates survive unchanged, and after replacing every Kerr gate - in the source and in the
+    compiled circuit - by the same rotation (a gate that, like the Kerr gate, commutes with rotations of its own mode and with
+    nothing else in the alphabet) the two circuits are the same Gaussian map.  A Gaussian gate that changed sides of a Kerr gate
+    it does not commute with changes that map."""
+    from strawberryfields.program_utils import Command
+
+    case = {"compiler": "gaussian_merge", "n": n, "seq": [[l, list(m)] for l, m in seq], "order": True}
+    prog = build(n, seq)
+    try:
+        with warnings.catch_warnings():
+            warnings.simplefilter("ignore")
+            with time_limit(20):
+                out = prog.compile(compiler="gaussian_merge")
+    except CircuitError:
+        res.stats["circuit_error"] += 1
+        return False
+    except Hang as e:
+        res.violation("C11|gaussian_merge|does-not-return|hybrid", f"compiling [{fmt(seq)}] for gaussian_merge: {e}", case)
+        return False
+    except Exception as e:
+        res.violation(f"C11|gaussian_merge|raises|{type(e).__name__}|hybrid", f"compiling [{fmt(seq)}] for gaussian_merge raised {type(e).__name__}: {e}", case)
+        return False
+    src_ng = sorted((tuple(r.ind for r in c.reg), tuple(map(float, c.op.p))) for c in prog.circuit if c.op.__class__.__name__ == "Kgate")
+    out_ng = sorted((tuple(r.ind for r in c.reg), tuple(map(float, c.op.p))) for c in out.circuit if c.op.__class__.__name__ == "Kgate")
+    if src_ng != out_ng:
+        res.violation("C11|gaussian_merge|non-gaussian-commands", f"compiled [{fmt(seq)}] has Kerr gates {out_ng}, source {src_ng}", case)
+        return False
+    sub = lambda circ: [Command(LET["Ksub"][0](), c.reg) if c.op.__class__.__name__ == "Kgate" else c for c in circ]
+    try:
+        ref = opsem.program_map(sub(prog.circuit), n)
+        got = opsem.program_map(sub(out.circuit), n)
+    except opsem.Unsupported as e:
+        res.violation("C11|gaussian_merge|uninterpretable", f"compiled [{fmt(seq)}] contains {e}", case)
+        return False
+    ok, why = ref.equal(got, 1e-9)
+    if not ok:
+        res.violation("C11|gaussian_merge|order|K", f"[{fmt(seq)}] compiled for gaussian_merge into {[str(c)[:50] for c in out.circuit]}: with every Kerr gate replaced by the same rotation the two circuits are different maps ({why}) - a Gaussian gate changed sides of a Kerr gate", case)
+    return len(out.circuit) != len(prog.circuit)
+
+
 def work(task):
     kind, compiler, n, idx, prefix, L = task
     res = Res()
+    if kind == "order":
+        for k in range(0, L - len(prefix) + 1):
+            for tail in itertools.product(idx, repeat=k):  # for this family the fourth task field carries the alphabet
+                seq = tuple(prefix) + tail
+                if not any(l == "K" for l, _ in seq) or not any(l == "bs" for l, _ in seq):
+                    continue
+                res.n += 1
+                res.stats["order_family"] += 1
+                if check_order(n, seq, res):
+                    res.nt += 1
+        return res
     alpha = letters(compiler if kind == "gauss" else ("gaussian_merge_front" if kind == "front" else "gaussian_merge_hybrid"), idx)
     for k in range(0, L - len(prefix) + 1):
         for tail in itertools.product(alpha, repeat=k):
@@ -322,6 +382,10 @@ def run(ctx):
     for ck in itertools.permutations((0, 1, 2), 2):
         for a in front:
             tasks.append(("front", "gaussian_merge", 3, (0, 1, 2), (("CK", ck), a), 4 if quick else 5))
+    # three modes, Kerr gates between rotations and beamsplitters, up to length 5, judged by substitution (no simulator)
+    o3 = ORDER3_QUICK if quick else ORDER3
+    for a, b in itertools.product(o3, repeat=2):
+        tasks.append(("order", "gaussian_merge", 3, tuple(o3), (a, b), 5))
     for r in ctx.pmap(work, tasks, chunksize=2):
         ctx.add(r)
         if ctx.time_left() < 0:
@@ -332,13 +396,16 @@ def run(ctx):
     ctx.assumptions += [
         "pure Gaussian circuits: equality of the reference (X, Y, d) on the full register decides equality for every input state; hybrid circuits (gaussian_merge with Kgate/Vgate/CKgate): differential run of source and compiled program on the Fock simulator at cutoff 9 with small parameters, tolerance 1e-6 + 4 sqrt(lost norm)",
         "index sets {0,1,2}, {1,9}, {8,0}, {3,7,9}, {0,10,2}, {16,8,1} in registers of 3-17 modes; length <= 2 (3 on the contiguous set in thorough); hybrid circuits: 2 modes up to length 4 (5 thorough), 3 modes up to length 3 (thorough)",
+        "three-mode circuits over {Rgate on each mode, BSgate on each ascending pair, Kgate on each mode} up to length 5 (quick: one rotation letter only): judged without a simulator - Kerr gates survive unchanged and, with every Kerr gate replaced by one fixed rotation in source and compiled circuit alike, both are the same Gaussian map (assumes the compiler uses no property of the Kerr gate beyond commuting with rotations of its own mode)",
     ]
 
 
 def replay(case):
     res = Res()
     seq = tuple((l, tuple(m)) for l, m in case["seq"])
-    if case.get("hybrid"):
+    if case.get("order"):
+        check_order(case["n"], seq, res)
+    elif case.get("hybrid"):
         check_hybrid(case["n"], seq, res)
     else:
         check_gaussian(case["compiler"], case["n"], seq, res)
